@@ -49,7 +49,8 @@ func (d *Device) handleKEYEvent(ie *input.InputEvent) {
 		switch ie.Event.Value {
 		case EV_KEY_PRESS:
 			d.actionTracker[action] = true
-			if !d.checkDoubleActions() {
+			// panic always gets through: a held up/down pair must not turn the panic key into a repetition of the pair's reset
+			if action == config.Panic || !d.checkDoubleActions() {
 				d.invokeActionPress(action)
 			}
 		case EV_KEY_RELEASE:
